@@ -51,3 +51,9 @@ pub fn quiet_panics() {
 }
 
 pub mod dic_ops;
+pub mod kana_ops;
+
+/// Dispatch one request to the module that knows the operation.
+pub fn handle(op: &str, arg: &str) -> Option<String> {
+    dic_ops::handle(op, arg).or_else(|| kana_ops::handle(op, arg))
+}
